@@ -7,4 +7,5 @@ from excel2pycl.src.translators.abstract_translator import AbstractTranslator
 class PatternTokenTranslator(AbstractTranslator):
     @classmethod
     def translate(cls, token: PatternToken, excel: Excel, context: Context) -> str:
-        return f'self._regexp({token.value[0]})'
+        # a wildcard literal is an ordinary text; only a criterion turns it into a regular expression
+        return repr(token.value[0][1:-1])
